@@ -91,6 +91,51 @@ def validate_witness(item):
     return (label, witness.size(spec), probs)
 
 
+def foreign_child_work(e):
+    """whatever single-node validation allows, whole-tree validation is able to accept: a child whose name is not a known
+    element, at every position of e's minimal witness; where validate.node lets it pass, validate.tree must as well"""
+    sp = witness.minimal(e)
+    out = []
+    n = 0
+    allowed = 0
+    if sp is None:
+        return out, n, allowed
+    for foreign in (["zzForeignElement", None, {}, []], ["zzForeignElement", "text", {"a": "b"}, [["zzInner", None, {}, []]]]):
+        for i in range(len(sp[3]) + 1):
+            for replace_all in (False, True):
+                kids = [foreign] if replace_all else sp[3][:i] + [foreign] + sp[3][i:]
+                if replace_all and i:
+                    continue
+                spec = [sp[0], sp[1], sp[2], kids]
+                n += 1
+                verdicts = {}
+                for mode in ("fail-fast", "collecting"):
+                    core.reset_store()
+                    root = witness.build(spec)
+                    errs = None if mode == "fail-fast" else []
+                    try:
+                        validate.node(root, errs)
+                        node_ok = not errs
+                    except Exception:  # noqa
+                        node_ok = False
+                    if not node_ok:
+                        continue
+                    allowed += 1
+                    errs = None if mode == "fail-fast" else []
+                    try:
+                        validate.tree(root, errs)
+                        tree_ok = not errs
+                        obs = [repr(x)[:120] for x in (errs or [])[:3]]
+                    except Exception as ex:  # noqa
+                        tree_ok = False
+                        obs = repr(ex)[:200]
+                    if not tree_ok:
+                        out.append(problem("node_allows_what_tree_rejects", {"element": e, "spec": spec, "mode": mode},
+                                           expected="validate.tree accepts the child that validate.node allowed",
+                                           observed=obs, element=e, mode=mode))
+    return out, n, allowed
+
+
 def _table_integrity(_):
     import copy
     import json
@@ -176,6 +221,7 @@ def table_checks():
     nm = ruleinfo.node_mappings()
     states = 0
     transitions = 0
+    malformed = []
 
     # 0. the table the code loaded is the shipped file
     if mrule.rules_dict != tab:
@@ -232,6 +278,8 @@ def table_checks():
         # 2. structural grammar
         sp = structural(rn, tab[rn])
         acc.add_problems(sp)
+        if sp:
+            malformed.append(rn)
         acc.outcome("rule_wellformed" if not sp else "rule_malformed")
 
     # 3. closure over the element graph (BFS from every known element)
@@ -273,6 +321,10 @@ def table_checks():
     unreachable_rules = sorted(set(tab) - reach_rules)
 
 
+    if malformed:
+        # no automaton can be derived from a rule that breaks the grammar: the findings above are the verdict
+        acc.count("malformed_rules", len(malformed))
+        return acc, states, transitions, nm, tab, reach_rules, unreachable_rules
     sat, _rounds = witness.fixpoint()
     for e in sorted(nm):
         if e not in sat:
@@ -284,6 +336,11 @@ def table_checks():
 
 def explore(tier):
     acc, states, transitions, nm, tab, reach_rules, unreachable_rules = table_checks()
+    if acc.counts.get("malformed_rules"):
+        return acc, {"states": states, "transitions": transitions, "evaluations": len(nm) + 2 * len(tab),
+                     "distinct_nontrivial": 0, "exhaustive": False,
+                     "rule": "stopped after the structural pass: the rule table breaks the grammar, no model can be derived from it",
+                     "cap": "witness generation skipped because of malformed rules"}
     # 3b. the table stays what it is while it is being used: validating valid AND invalid nodes (every attribute fault,
     # content fault and child fault per rule), introspecting and computing insertion indices must not change the
     # in-memory table (run in a child process; compared with the shipped file afterwards)
@@ -301,6 +358,15 @@ def explore(tier):
         sizes.append(sz)
         acc.add_problems(probs)
         acc.outcome("witness_ok" if not probs else "witness_rejected")
+    fres = core.pmap(foreign_child_work, sorted(sat), chunksize=8,
+                     on_timeout=lambda item, limit, timed_out=True: ([problem("did_not_terminate", {"element": item}, expected="validation finishes", observed="no result within the limit")] if timed_out else [], 0, 0))
+    n_foreign = n_allowed = 0
+    for probs, n_, al_ in fres:
+        acc.add_problems(probs)
+        n_foreign += n_
+        n_allowed += al_
+    acc.count("foreign_child_trees", n_foreign)
+    acc.count("foreign_child_allowed_by_node", n_allowed)
     for label, spec in specs[:2] + specs[len(specs) // 2: len(specs) // 2 + 1]:
         acc.sample({"witness": label, "spec": spec})
     cov = {
@@ -319,6 +385,7 @@ def explore(tier):
         "satisfiable_elements": len(sat), "fixpoint_rounds": rounds,
         "witness_trees": len(specs), "witness_max_nodes": max(sizes) if sizes else 0,
         "witness_total_nodes": sum(sizes),
+        "foreign_child_trees": n_foreign, "foreign_child_allowed_by_single_node_validation": n_allowed,
     }
     return acc, cov
 
@@ -326,6 +393,8 @@ def explore(tier):
 def replay(case):
     if "witness" in case:
         return validate_witness((case["witness"], case["spec"]))[2]
+    if "element" in case and "spec" in case:
+        return [p for p in foreign_child_work(case["element"])[0] if core.jsonable(p["case"]) == case]
     if str(case.get("what", "")).startswith("rules_dict after"):
         return _table_integrity(None)
     acc = table_checks()[0]
